@@ -235,7 +235,11 @@ Print Assumptions script_denotes.
 
 (** The three sites read from the source of this run ([Attribute.__init__]'s [eq_key or eq],
     [if a.eq_key:] in [_make_eq_script] and in [_make_hash_script]) decide consistently. *)
-Theorem source_key_tests_consistent : tests_consistent Gen.C04_consts.src_key_tests = true.
+Theorem source_key_tests_consistent :
+  match Gen.C04_consts.src_key_tests_read with
+  | Some ts => tests_consistent ts = true
+  | None => True   (* a site has a shape the reader does not recognise: nothing is claimed *)
+  end.
 Proof. exact source_key_tests_consistent_l. Qed.
 Print Assumptions source_key_tests_consistent.
 
@@ -263,6 +267,10 @@ Theorem honoured_keys_applied : forall ts, keys_honoured ts = true ->
 Proof. exact honoured_keys_applied_l. Qed.
 Print Assumptions honoured_keys_applied.
 
-Theorem source_keys_honoured : keys_honoured Gen.C04_consts.src_key_tests = true.
+Theorem source_keys_honoured :
+  match Gen.C04_consts.src_key_tests_read with
+  | Some ts => keys_honoured ts = true
+  | None => True
+  end.
 Proof. exact source_keys_honoured_l. Qed.
 Print Assumptions source_keys_honoured.
